@@ -147,12 +147,58 @@ Definition check_step (strict : bool) (c : cst) (o : sop) (x : obs) : cst * N :=
   | _, _ => (c, 6)
   end.
 
+(* the verdict of a whole history: the first verdict among 1-4 / 6 if there is one; otherwise 5 if verdict 5 occurred
+   (it does not stop the examination: finding D8 must not hide what happens afterwards); otherwise 0 *)
 Fixpoint check (strict : bool) (c : cst) (l : list sop) (xs : list obs) : N :=
   match l, xs with
   | [], [] => 0
-  | o :: r, x :: xr => let '(c', v) := check_step strict c o x in if v =? 0 then check strict c' r xr else v
+  | o :: r, x :: xr =>
+      let '(c', v) := check_step strict c o x in
+      if v =? 0 then check strict c' r xr
+      else if v =? 5 then (let w := check strict c' r xr in if w =? 0 then 5 else w)
+      else v
   | _, _ => 6
   end.
+
+(* ---------------- the disciplines under which the property is claimed ------------------------------- *)
+(* The discipline of its one producer thread: counts >= 1, no claim that would block, publishes in claim order
+   (any number of claims may be outstanding), consumers never pass the cursor.  [sp_wf s out l]: the operations l are well formed from model
+   state s with outstanding claims out. *)
+Fixpoint sp_wf (s : sp) (out : list (N * N)) (l : list sop) : bool :=
+  match l with
+  | [] => true
+  | o :: r =>
+      let '(s', x) := sp_step s o in
+      match o, x with
+      | SNext c, RClaim a b => (1 <=? c) && sp_wf s' (out ++ [(a, b)]) r
+      | SPublish lo hi, _ =>
+          match out with
+          | (a, b) :: out' => (a =? lo) && (b =? hi) && sp_wf s' out' r
+          | [] => false
+          end
+      | SGate _ v, _ => (v <=? sp_cursor s) && sp_wf s' out r          (* consumers never pass the cursor *)
+      | _, _ => false
+      end
+  end.
+
+
+(* ---- the discipline of the claimants and consumers ---- *)
+(* counts >= 1, no claim that would block, every publish is of an outstanding claim (ANY of them: publishes may
+   complete in a different order than the claims), consumers never pass the cursor *)
+Fixpoint mp_wf (s : mp) (out : list (N * N)) (l : list sop) : bool :=
+  match l with
+  | [] => true
+  | o :: r =>
+      let '(s', x) := mp_step s o in
+      match o, x with
+      | SNext c, RClaim a b => (1 <=? c) && mp_wf s' (out ++ [(a, b)]) r
+      | SPublish lo hi, _ =>
+          match remove_claim lo hi out with Some out' => mp_wf s' out' r | None => false end
+      | SGate _ v, _ => (v <=? mp_cursor s) && mp_wf s' out r
+      | _, _ => false
+      end
+  end.
+
 
 (* ---------------- integer entry points --------------------------------------------------------------- *)
 (* case: kind (0 single, 1 multi), size, number of gating cursors, then (op, a, b)*:
@@ -198,7 +244,8 @@ Fixpoint parse_obs (l : list sop) (out : list Z) : option (list obs) :=
       end
   end.
 
-(* nout, case, implementation output -> verdict of [check] (7 = output does not parse, e.g. negative / short) *)
+(* nout, case, implementation output -> verdict of [check] (7 = output does not parse, e.g. negative / short;
+   8 = the history is outside the discipline under which the property is claimed: not judged) *)
 Definition seqapi_check_entry (l : list Z) : list Z :=
   match l with
   | nout :: rest =>
@@ -206,9 +253,11 @@ Definition seqapi_check_entry (l : list Z) : list Z :=
       let cs := firstn (length rest - n) rest in
       let out := skipn (length rest - n) rest in
       match cs with
-      | kind :: _ :: _ :: r =>
+      | kind :: size :: ng :: r =>
           let ops := decode_sops r in
-          if existsb (fun z => Z.ltb z 0) out then [7%Z]
+          if negb (if Z.eqb kind 0 then sp_wf (sp_init (Z.to_N size) (Z.to_nat ng)) [] ops
+                   else mp_wf (mp_init (Z.to_N size) (Z.to_nat ng)) [] ops) then [8%Z]
+          else if existsb (fun z => Z.ltb z 0) out then [7%Z]
           else match parse_obs ops out with
                | Some xs => [Z.of_N (check (Z.eqb kind 0) c_init ops xs)]
                | None => [7%Z]
